@@ -168,7 +168,7 @@ def desc(v):
 DEC = {0x22: 0x22, 0x5c: 0x5c, 0x2f: 0x2f, 0x62: 8, 0x66: 12, 0x6e: 10, 0x72: 13, 0x74: 9}
 
 
-def plain_key(items):
+def plain_key(items, uni=None):
     """a byte string that (by RFC 8259) the name stands for, or one that *would* match if \\u were decoded;
     only used to pick interesting search keys — whether it matches is decided by pmodel"""
     out = bytearray()
@@ -177,6 +177,8 @@ def plain_key(items):
             out.append(it[1])
         elif it[0] == "e":
             out.append(DEC[it[1]])
+        elif uni is not None:
+            out += uni
         else:
             try:
                 c = int(it[1].decode(), 16)
@@ -197,6 +199,9 @@ def gen_doc_and_key(r, depth=3):
         for m in obj[1]:
             pk = plain_key(m[1])
             cand += [pk, pk[:-1], pk + b"a", pk[1:]]
+            if any(it[0] == "u" for it in m[1]):
+                # keys that a sloppy treatment of \u could match: the escape read as '\\', as 'u', as nothing
+                cand += [plain_key(m[1], b"\\"), plain_key(m[1], b"u"), plain_key(m[1], b""), plain_key(m[1], b"\\u")]
     cand += [b"k", b"", b"zz"]
     key = r.choice(cand).replace(b"\0", b"")
     return lead, obj, trail, key
